@@ -553,6 +553,21 @@ func (c *Ctx) bvbin(op Op, a, b *Term) *Term {
 				return b
 			}
 		}
+		// disjoint contiguous supports (byte reassembly: lo | hi<<k):
+		// or(lo, hi) = concat(extract(hi, w-1, k), extract(lo, k-1, 0))
+		if !a.IsConst() && !b.IsConst() {
+			for _, p := range [2][2]*Term{{a, b}, {b, a}} {
+				lo, hi := p[0], p[1]
+				// k = number of low bits of hi known zero
+				k := bits.TrailingZeros64(^hi.KZ)
+				if k > w {
+					k = w
+				}
+				if k > 0 && k < w && (lo.KZ|mask(k))&mask(w) == mask(w) {
+					return c.Concat(c.Extract(hi, w-1, k), c.Extract(lo, k-1, 0))
+				}
+			}
+		}
 	case OBvXor:
 		if a == b {
 			return c.BVC(0, w)
